@@ -1275,4 +1275,18 @@ theorem c11_extracted_tables_agree :
     have h3 : q (1, 20) = 1 / 20 := by decide +kernel
     rw [h1, h2, h3]; rfl
 
+/-- What the library's own wrappers do to a Chaperone, EVALUATED on the real classes on every run (a probe object stands
+    in for the Chaperone), equals what the model assumes: constructing a `ChaperoneLoop` calls no method of the Chaperone
+    and leaves its configuration (strategy list, co-chaperones, `on_misfold`, tables) as it was — `HInst.wrapInLoop` is
+    the identity; a healing run over one misfold and one clean text calls `fold_enhanced` twice and nothing else and
+    leaves the configuration as it was — `healH` is made of `foldXH`, `HInst.afterHeal` moves the counters only;
+    `BioAgent(…).chaperone` is a default-configured `Chaperone` with a list of its own (protocol op `agent` = `new none`). -/
+theorem c11_extracted_wrapper_facts_agree :
+    Gen.ChaperoneTables.loopCtorCalls = some loopCtorCalls ∧
+    Gen.ChaperoneTables.loopCtorLeavesConfig = some true ∧
+    Gen.ChaperoneTables.healCalls = some (healCallsFor 1) ∧
+    Gen.ChaperoneTables.healLeavesConfig = some true ∧
+    Gen.ChaperoneTables.agentChaperoneIsDefault = some true := by
+  refine ⟨by decide, by decide, by decide, by decide, by decide⟩
+
 end Operon.Chaperone
